@@ -26,6 +26,9 @@ type config struct {
 	PMax      int64 `json:"parent_max,omitempty"`
 	PExpire   int64 `json:"parent_expire_sec,omitempty"`
 	PGC       int64 `json:"parent_gc_sec,omitempty"`
+	// Mixed (with Parent): the internal limit the Limiter consults is a fixed-window limit that never refuses
+	// (100000 per minute); the concurrency quota is its parent alone
+	Mixed bool `json:"fixed_window_child,omitempty"`
 	// Second: the flow also consults an independent fixed-window quota that never refuses (100000 per minute),
 	// through a second Limiter placed "after" or "before" the Limiter of the concurrency quota
 	Second string `json:"second_quota,omitempty"`
@@ -64,6 +67,10 @@ func (c config) quotaYAML() string {
 	}
 	if !c.Parent {
 		return "quotas:\n  - id: QC\n    filter:\n      url: \"h.com/*\"\n" + conc("    ", c.Max, c.ExpireSec, c.GCSec) + second
+	}
+	if c.Mixed {
+		return "quotas:\n  - id: QP\n    filter:\n      url: \"h.com/*\"\n" + conc("    ", c.PMax, c.PExpire, c.PGC) + second +
+			"internal_limits:\n  - id: QC\n    parent_id: QP\n    strategy:\n      fixed_window:\n        max: 100000\n        interval: 1\n        interval_unit: minute\n"
 	}
 	return "quotas:\n  - id: QP\n    filter:\n      url: \"h.com/*\"\n" + conc("    ", c.PMax, c.PExpire, c.PGC) + second +
 		"internal_limits:\n  - id: QC\n    parent_id: QP\n" + conc("    ", c.Max, c.ExpireSec, c.GCSec)
@@ -206,6 +213,11 @@ func genConfig() *rapid.Generator[config] {
 		if rapid.IntRange(0, 2).Draw(t, "parent") == 0 {
 			c.Parent = true
 			c.PMax, c.PExpire, c.PGC = rapid.Int64Range(1, 4).Draw(t, "pmax"), rapid.SampledFrom([]int64{0, 1, 2, 3, 4, 5}).Draw(t, "pexp"), rapid.SampledFrom([]int64{0, 1, 2, 3}).Draw(t, "pgc")
+			if rapid.IntRange(0, 2).Draw(t, "mixed") == 0 {
+				// the concurrency quota is then the parent alone: the history is timed by its settings
+				c.Mixed = true
+				c.Max, c.ExpireSec, c.GCSec = c.PMax, c.PExpire, c.PGC
+			}
 		}
 		c.Second = rapid.SampledFrom([]string{"", "", "after", "before"}).Draw(t, "second")
 		return c
@@ -403,7 +415,7 @@ func runHistoryInner(h hist) (nontrivial bool, classes map[string]int, err error
 	nq := 1
 	m := &model{chain: []*qmodel{{max: h.Config.Max, exp: effExp(h.Config.ExpireSec), slots: map[int]slot{}}}}
 	gcEvery := []time.Duration{effGC(h.Config.GCSec)}
-	if h.Config.Parent {
+	if h.Config.Parent && !h.Config.Mixed {
 		nq = 2
 		m.chain = append(m.chain, &qmodel{max: h.Config.PMax, exp: effExp(h.Config.PExpire), slots: map[int]slot{}})
 		gcEvery = append(gcEvery, effGC(h.Config.PGC))
@@ -670,6 +682,9 @@ func TestConcurrentQuotaHistories(t *testing.T) {
 		r.Case()
 		if cfg.Parent {
 			r.Class("with-parent")
+		}
+		if cfg.Mixed {
+			r.Class("fixed-window internal limit under the concurrency quota")
 		}
 		nt, classes, err := runHistory(h)
 		for c, n := range classes {
